@@ -197,9 +197,14 @@ def run_manager(sysm, ops, scale, out, align=None):
             man.calculate_exchange_maps(scale)
             ev.append({'op': 'CalcMaps'})
         else:
-            if os.path.exists(out):
+            # the output path may already hold the result of an earlier request: a refused request leaves it, and the
+            # directory, exactly as they were
+            keep_old = os.path.exists(out) and (len(ev) % 2 == 0)
+            if os.path.exists(out) and not keep_old:
                 os.remove(out)
-            if (len(ev) + len(sysm.mols)) % 3 == 0 and os.path.exists('/dev/full'):
+            before_dir = sorted(os.listdir(os.path.dirname(out)))
+            before_bytes = open(out, 'rb').read() if keep_old else None
+            if (len(ev) + len(sysm.mols)) % 3 == 0 and os.path.exists('/dev/full') and not keep_old:
                 # an earlier attempt whose output device is full (every write to /dev/full fails with ENOSPC): however
                 # it ends, the next extrapolation of the same manager writes the file the specification describes
                 full = out + '.full.gro'          # a .gro name whose device is full
@@ -217,7 +222,11 @@ def run_manager(sysm, ops, scale, out, align=None):
                 outcome = 'ok'
             except SystemError:
                 outcome = 'error'
-            ev.append({'op': 'Extrapolate', 'outcome': outcome, 'file': os.path.exists(out)})
+            touched = os.path.exists(out)
+            if outcome == 'error' and keep_old:
+                touched = not (sorted(os.listdir(os.path.dirname(out))) == before_dir and os.path.exists(out)
+                               and open(out, 'rb').read() == before_bytes)
+            ev.append({'op': 'Extrapolate', 'outcome': outcome, 'file': touched})
             if outcome == 'ok':
                 ev += read_back(sysm, man, out)
     return ev, present
